@@ -224,13 +224,13 @@ def call_keys(R):
     return [r[1] for r in R.rows if r[1].startswith(('BSC_', 'MSC_')) and r[1] in R.code_of]
 
 
-def run_windows(R, metas, host=None):
+def run_windows(R, metas, host=None, env_extra=None):
     """metas: [(key, first, last, tid, paths, gstr)] -> impl results"""
     cases = [{'events': window(R, k, f, l, t, p), 'gstr': g} for k, f, l, t, p, g in metas]
     req = {'cases': cases}
     if host is not None:
         req['host'] = host
-    return vlib.run_impl('run_decoders.py', req, timeout=3000)
+    return vlib.run_impl('run_decoders.py', req, timeout=3000, env_extra=env_extra)
 
 
 def correspond(ctx, name, host, metas, res):
